@@ -1,7 +1,7 @@
 (* C35 - the map list and its modelled sections end on every byte string, whatever counts the file announces. *)
 From Coq Require Import ZArith List Bool Lia.
 Require Import V.Lib.Val V.Lib.Result V.Dex.LebModel V.Dex.StringsModel V.Dex.MapWalkModel.
-Require V.Misc.TermProofs.
+Require V.Misc.TermProofs V.Dex.EncodedValueModel V.Dex.DexTerm.
 Import ListNotations.
 Open Scope Z_scope.
 
@@ -182,6 +182,40 @@ Proof.
   - cbn [bind]. intros H'. apply Q in H'; lia.
 Qed.
 
+(* encoded arrays and annotation items: the theorems of the encoded-value reader (Dex/DexTerm.v) *)
+Lemma encarray_facts fuel bs : (length bs < fuel)%nat ->
+  noo (rd_encarray fuel bs) /\ forall x r, rd_encarray fuel bs = Ok (x, r) -> (length r < length bs)%nat.
+Proof.
+  intros Hf. unfold rd_encarray, EncodedValueModel.parse_array. destruct (Nat.leb_spec fuel (length bs)) as [Q|_]; [lia|].
+  destruct (read_u bs) as [[size r0]|e] eqn:U; cbn [bind].
+  2:{ split; [intros H; injection H as ->; exact (read_u_noo _ U) | discriminate]. }
+  pose proof (read_u_progress _ _ _ U).
+  destruct (DexTerm.parse_values_ends (EncodedValueModel.parse_value fuel) fuel (DexTerm.parse_value_level fuel) (EncodedValueModel.cnt size r0) r0 ltac:(lia)) as [N S].
+  destruct (EncodedValueModel.parse_values (EncodedValueModel.parse_value fuel) (EncodedValueModel.cnt size r0) r0) as [[vs r1]|e] eqn:P; cbn [bind].
+  - split; [discriminate|]. intros x r H'. injection H' as _ <-. specialize (S vs r1 eq_refl). lia.
+  - split; [|discriminate]. intros H'. injection H' as ->. exact (N eq_refl).
+Qed.
+Lemma encarray_progress fuel bs x r : rd_encarray fuel bs = Ok (x, r) -> (length r < length bs)%nat.
+Proof.
+  destruct (Nat.lt_ge_cases (length bs) fuel) as [Lt|Ge]; [exact (proj2 (encarray_facts fuel bs Lt) x r)|].
+  unfold rd_encarray. destruct (Nat.leb_spec fuel (length bs)); [discriminate | lia].
+Qed.
+Lemma annotation_facts fuel bs : (length bs < fuel)%nat ->
+  noo (rd_annotation fuel bs) /\ forall x r, rd_annotation fuel bs = Ok (x, r) -> (length r < length bs)%nat.
+Proof.
+  intros Hf. unfold rd_annotation. destruct (Nat.leb_spec fuel (length bs)) as [Q|_]; [lia|].
+  destruct bs as [|b r0]; cbn [get_byte bind]; [split; discriminate|]. cbn [length] in Hf.
+  destruct (DexTerm.parse_step_ends (EncodedValueModel.parse_value fuel) fuel EncodedValueModel.VALUE_ANNOTATION r0 (DexTerm.parse_value_level fuel) ltac:(lia)) as [N S].
+  destruct (EncodedValueModel.parse_step (EncodedValueModel.parse_value fuel) EncodedValueModel.VALUE_ANNOTATION r0) as [[v r2]|e] eqn:P; cbn [bind].
+  - split; [discriminate|]. intros x r H'. injection H' as _ <-. specialize (S v r2 eq_refl). cbn [length]. lia.
+  - split; [|discriminate]. intros H'. injection H' as ->. exact (N eq_refl).
+Qed.
+Lemma annotation_progress fuel bs x r : rd_annotation fuel bs = Ok (x, r) -> (length r < length bs)%nat.
+Proof.
+  destruct (Nat.lt_ge_cases (length bs) fuel) as [Lt|Ge]; [exact (proj2 (annotation_facts fuel bs Lt) x r)|].
+  unfold rd_annotation. destruct (Nat.leb_spec fuel (length bs)); [discriminate | lia].
+Qed.
+
 Lemma seek_length buf p : (length (seek buf p) <= length buf)%nat.
 Proof. unfold seek. destruct (p <? 0); [lia|]. rewrite skipn_length. lia. Qed.
 
@@ -199,7 +233,7 @@ Qed.
 Theorem section_ends : forall buf ty count off, noo (section (S (length buf)) buf ty count off).
 Proof.
   intros buf ty count off. unfold section. pose proof (seek_length buf (start_of ty off)) as SL. set (bs := seek buf (start_of ty off)) in *.
-  destruct (kind_of ty) as [[k|k p| | | | | |]|] eqn:K; try discriminate.
+  destruct (kind_of ty) as [[k|k p| | | | | | | |]|] eqn:K; try discriminate.
   - destruct (read_n (rd_fixed k) (S (length buf)) count bs []) as [[xs r]|e] eqn:R; cbn [bind]; [discriminate|]. intros H. injection H as ->.
     revert R. apply (read_n_ends _ (rd_fixed k) (S (length buf))); try lia; [intros; apply fixed_noo | apply fixed_progress; exact (kind_fixed_pos _ _ K)].
   - pose proof (kind_sized_pos _ _ _ K) as KP.
@@ -217,6 +251,14 @@ Proof.
     revert R. apply (read_n_ends _ (rd_code (length buf) (S (length buf))) (S (length buf))); try lia.
     + intros b Hb. apply code_noo. lia.
     + intros b x r. apply code_progress.
+  - destruct (read_n (rd_encarray (S (length buf))) (S (length buf)) count bs []) as [[xs r]|e] eqn:R; cbn [bind]; [discriminate|]. intros H. injection H as ->.
+    revert R. apply (read_n_ends _ (rd_encarray (S (length buf))) (S (length buf))); try lia.
+    + intros b Hb. apply encarray_facts. lia.
+    + intros b x r. apply encarray_progress.
+  - destruct (read_n (rd_annotation (S (length buf))) (S (length buf)) count bs []) as [[xs r]|e] eqn:R; cbn [bind]; [discriminate|]. intros H. injection H as ->.
+    revert R. apply (read_n_ends _ (rd_annotation (S (length buf))) (S (length buf))); try lia.
+    + intros b Hb. apply annotation_facts. lia.
+    + intros b x r. apply annotation_progress.
 Qed.
 
 Lemma sections_end buf : forall items, noo (sections (S (length buf)) buf items).
